@@ -445,6 +445,30 @@ def S_column_object(Q, n):
     return Q.create_table("t").columns(r["Column"](n, "INT", nullable=False, default=1))
 
 
+# index hints: every argument, an Index object or a string, in whatever position
+def S_index_second_object(Q, n):
+    r = _r()
+    t = r["Table"]("t")
+    return Q.from_(t).select(t.a).force_index(r["Index"]("ix1"), r["Index"](n))
+
+
+def S_index_mixed_arguments(Q, n):
+    r = _r()
+    t = r["Table"]("t")
+    return Q.from_(t).select(t.a).use_index("ix1", r["Index"](n), "ix3").force_index(n, r["Index"]("ix4"))
+
+
+# an aliased table as the target of UPDATE / INSERT: the alias is introduced right after the table and used as qualifier
+def S_update_target_alias(Q, n):
+    t = _r()["Table"]("t").as_(n)
+    return Q.update(t).set(t.a, 1).where(t.b == 2)
+
+
+def S_insert_target_alias(Q, n):
+    t = _r()["Table"]("t").as_(n)
+    return Q.into(t).columns("x").insert(1)
+
+
 # JOIN .. USING (<names>) with joined items that carry an alias (given, automatic, derived table): the list holds bare names
 def S_using_aliased_item(Q, n):
     t = _r()["Table"]("t")
@@ -540,6 +564,8 @@ EXPECT_IDENTS = {
     "create-case-twins": lambda n: ["t", n, n.swapcase(), "b", n.swapcase(), "b", n],
     "create-case-twins-reverse": lambda n: ["t", n.swapcase(), n, n, n.swapcase()],
     "create-columns": lambda n: ["t", n, "b", n, n],
+    "index-second-object": lambda n: ["a", "t", "ix1", n], "index-mixed-arguments": lambda n: ["a", "t", n, "ix4", "ix1", n, "ix3"],
+    "update-target-alias": lambda n: ["t", n, n, "a", n, "b"], "insert-target-alias": lambda n: ["t", n, n, "x"],
     "using-aliased-item": lambda n: ["t", "a", "t", "u", "al", n], "using-self-join": lambda n: ["t", "a", "t", "t", "t2", n, "id"],
     "using-subquery-item": lambda n: ["t", "a", "t", "id", "u", "sq", "id", n],
     "load-schema": lambda n: [n, "t"], "load-database-chain": lambda n: [n, "sch", "tbl"],
